@@ -19,7 +19,7 @@ VERIF = os.path.dirname(os.path.dirname(os.path.abspath(__file__)))
 if VERIF not in sys.path:
     sys.path.insert(0, VERIF)
 
-from symx import core, patch  # noqa: E402
+from symx import core, patch, second  # noqa: E402
 
 REPO_ROOT = patch.REPO_ROOT
 TIER = os.environ.get('VERIF_TIER', 'quick')
@@ -176,6 +176,9 @@ class Obl:
         try:
             r = self.ctx.check(ta != te, limit_s=7)
             if r == 'unsat':
+                if not second.maybe_confirm(self.ctx.solver, [ta != te], what):
+                    self.inconclusive += 1          # the second solver finds a model where z3 finds none
+                    return True
                 self.discharged += 1
                 return True
             if r == 'sat':
@@ -234,6 +237,9 @@ class Obl:
         t = core.sbool(cond)
         r = self.ctx.check(z3.Not(t))
         if r == 'unsat':
+            if not second.maybe_confirm(self.ctx.solver, [z3.Not(t)], what):
+                self.inconclusive += 1
+                return True
             self.discharged += 1
             return True
         if r == 'sat':
@@ -511,8 +517,14 @@ def _case_entry(args):
     t0 = time.time()
     try:
         start_monitoring()
+        second.reset()
         r = fn(case)
         r['functions'] = entered_functions()
+        if second.STATS['asked'] or second.STATS['errors']:
+            r.setdefault('extra', {}).update({k: r.get('extra', {}).get(k, 0) + v for k, v in second.stats_for_report().items()})
+        for dis in second.DISAGREEMENTS:
+            r.setdefault('errors', []).append('second solver (cvc5) finds a model for a query z3 answered unsat: %s' % dis['what'])
+            r.setdefault('extra', {})['second_solver_disagreement_sample'] = dis
     except BaseException as e:      # the harness itself failed
         r = {'errors': ['case %r: %s' % (case_label(case), traceback.format_exc())]}
     r['case_wall'] = time.time() - t0
